@@ -53,6 +53,7 @@ func configsFor(part string, thorough bool) []*xcfg {
 		{Type: pb.RemoveNode, ReplicaID: 2},
 		{Type: pb.RemoveNode, ReplicaID: 1},
 		{Type: pb.AddWitness, ReplicaID: 5, Address: "a5"},
+		{Type: pb.RemoveNode, ReplicaID: 4},
 	}
 	switch part {
 	case "tune":
@@ -167,6 +168,9 @@ func configsFor(part string, thorough bool) []*xcfg {
 				CCMenu: ccMenu, Script: []string{"T1", "H1", "C1:2", "H1", "L1>2", "H1", "H1"}},
 			{Name: "3v+2nv-checkquorum-partition-dev", Voters: v3, NonVotings: []uint64{4, 5}, Fifo: true, CheckQuorum: true, MaxDev: 2, MaxTerm: 6, MaxIndex: 10, Partitions: 1, Heartbeats: 1, CheckQuorums: 1, Drops: 1,
 				Script: []string{"T1", "H1", "P1", "H1", "Q1", "H1", "Q1", "H1", "Q1"}},
+			{Name: "3v+w-remove-witness-snapshot-lagging-dev", Voters: v3, Witnesses: []uint64{4}, Fifo: true, LazyApply: true, MaxDev: 2, MaxTerm: 6, MaxIndex: 12, Timeouts: 1, Drops: 1, Reports: 1,
+				// the only witness is removed while replica 3 is cut off; 3 catches up by snapshot
+				CCMenu: ccMenu, Script: []string{"T1", "H1", "P1", "H1", "M11", "C1:5", "H1", "P1", "S1", "P1", "H1", "E", "H1", "H1", "T3", "H1"}},
 			{Name: "3v-remove-dev", Voters: v3, Fifo: true, LazyApply: true, MaxDev: pick(2, 3), MaxTerm: 6, MaxIndex: 10, ConfChanges: 1, Timeouts: 3, Drops: 2, Proposals: 1,
 				CCMenu: ccMenu, Script: []string{"T1", "H1", "C1:2", "H1", "H1", "T2", "P1", "H1"}},
 		}
